@@ -32,7 +32,7 @@ CFG = {
                   nhist=30, steps=60),
     "thorough": dict(mc=["MC_Config_t.cfg", "MC_Config_items_t.cfg", "MC_Config_view_t.cfg", "MC_Config_p_t.cfg"],
                      gen=[("Gen_Config_global_t.cfg", "c"), ("Gen_Config_view_t.cfg", "c"), ("Gen_Config_view2_t.cfg", "c"),
-                          ("Gen_Config_cxx_t.cfg", "cxx"), ("Gen_Config_p_t.cfg", "c")],
+                          ("Gen_Config_cxx.cfg", "cxx"), ("Gen_Config_cxx_t.cfg", "cxx"), ("Gen_Config_p_t.cfg", "c")],
                      nhist=200, steps=120),
 }
 
@@ -139,13 +139,23 @@ def nontrivial_a(beh):
     return len(set(paths)) >= 2 and (len(paths) > len(set(paths)) or any(a in ("remove", "clearbelow", "clearall") for a in acts))
 
 
-def binding_a(ck, exes, gencfg, impl, nt, samples):
+def export(gencfg, out):
+    """TLC writes one behaviour per transition to a file (runs beside the replays of earlier exports)"""
     wdir = vlib.ensure(os.path.join(vlib.WORK, PID))
     tag = gencfg.replace(".cfg", "")
     path = os.path.join(wdir, "behav-%s-%d.txt" % (tag, os.getpid()))
     if os.path.exists(path):
         os.unlink(path)
-    gen = vlib.tlc("Gen_Config", gencfg, workers=4, extra=("-userFile", path), tag="Gen_Config-" + tag)
+    try:
+        out[gencfg] = (path, vlib.tlc("Gen_Config", gencfg, workers=3, extra=("-userFile", path), tag="Gen_Config-" + tag))
+    except Exception as e:          # reported by the main thread
+        out[gencfg] = (path, e)
+
+
+def binding_a(ck, exes, gencfg, impl, nt, samples, path, gen):
+    tag = gencfg.replace(".cfg", "")
+    if isinstance(gen, Exception):
+        raise vlib.MachineryError("behaviour export failed: %s" % gen)
     if gen.error or gen.violation:
         raise vlib.MachineryError("behaviour export failed: %s %s" % (gen.error, gen.violation))
     exe = exes[impl]
@@ -236,7 +246,7 @@ def gen_store_history(rng, mode, steps, longvals):
     rels = [p for p in paths if p[:len(BASE)] != BASE][:8] if view else []
     uni = [bjoin(p, sep) for p in paths]
     rel = [[0]] + [bjoin(p, sep) for p in rels]
-    hist = [{"a": "init", "arg": {"base": bjoin(BASE, sep) if view else [], "sep": sep, "uni": uni,
+    hist = [{"a": "init", "arg": {"base": bjoin(BASE, sep) if view else [0], "sep": sep, "uni": uni,
                                   "rel": rel if view else []}}]
     lens = VALLENS + (LONGVALS if longvals else [])
     for _ in range(steps):
@@ -268,7 +278,7 @@ def gen_store_history(rng, mode, steps, longvals):
 
 def gen_path_history(rng, steps):
     sep = rng.choice([46, 47, 58])
-    hist = [{"a": "init", "arg": {"base": [], "sep": sep, "uni": [], "rel": []}}]
+    hist = [{"a": "init", "arg": {"base": [0], "sep": sep, "uni": [], "rel": []}}]
 
     def elem():
         return mkname(rng, rng.choice(ELEMLENS), sep)
@@ -296,7 +306,7 @@ def gen_path_history(rng, steps):
 def long_values_work(exes, label):
     """probe for the known finding value_len>=250: only where it still reproduces do the histories avoid long values"""
     view = label == "view"
-    beh = [{"a": "init", "arg": {"base": bjoin(BASE, 46) if view else [], "sep": 46, "uni": [bjoin(BASE + [[97]], 46) if view else [97]],
+    beh = [{"a": "init", "arg": {"base": bjoin(BASE, 46) if view else [0], "sep": 46, "uni": [bjoin(BASE + [[97]], 46) if view else [97]],
                                  "rel": [[0], [97]] if view else []}},
            {"a": "assign", "arg": {"via": "view" if view else "top", "path": [97], "sep": 46, "end": 0, "val": [120] * 300}}]
     recs, _ = vlib.run_driver(exes["cxx" if label == "cxx" else "c"], script([beh], quiet_prefix=False))
@@ -342,10 +352,25 @@ def binding_b(ck, exes, n, steps, nt):
     groups["global-plain"] = ("cp", "Trace_Config.cfg", groups["global"][2])
     total = okn = 0
     info = {}
+    first = {}
+
+    def validate(label):
+        impl, tcfg, hists = groups[label]
+        try:
+            recs, _ = vlib.run_driver(exes[impl], script(hists, quiet_prefix=False))
+            events = vlib.merge_trace(hists, recs)
+            first[label] = (events,) + vlib.validate_trace("Trace_Config", events, cfg=tcfg, tag="Trace_Config-" + label, xss="1g")
+        except Exception as e:
+            first[label] = e
+    vths = [threading.Thread(target=validate, args=(label,)) for label in groups]
+    for t in vths:
+        t.start()
+    for t in vths:
+        t.join()
     for label, (impl, tcfg, hists) in groups.items():
-        recs, _ = vlib.run_driver(exes[impl], script(hists, quiet_prefix=False))
-        events = vlib.merge_trace(hists, recs)
-        ok, matched, tres = vlib.validate_trace("Trace_Config", events, cfg=tcfg, tag="Trace_Config-" + label, xss="1g")
+        if isinstance(first[label], Exception):
+            raise vlib.MachineryError("trace validation %s: %s" % (label, first[label]))
+        events, ok, matched, tres = first[label]
         ck.cov["transitions"] += tres.generated
         if not ok:
             ok2, matched2, _ = vlib.validate_trace("Trace_Config", events, cfg=tcfg, tag="Trace_Config-" + label, xss="1g")
@@ -360,10 +385,16 @@ def binding_b(ck, exes, n, steps, nt):
         for h in hists:
             if nontrivial_b(h):
                 nt.add(label + common.callkey(h))
+        diag = {"present": 0, "as_s": 0, "headprev": 0}
+        for e in events:
+            for k in diag:
+                diag[k] += (e.get("dbg") or {}).get(k, 0)
         total += len(hists)
         okn += len(hists) if ok else 0
         info[label] = {"histories": len(hists), "events": len(events), "events_matched": matched,
-                       "tlc_wall_s": round(tres.wall, 1)}
+                       "tlc_wall_s": round(tres.wall, 1),
+                       "diagnostics_not_judged": {"values_seen": diag["present"], "of_them_answered_as_type_s": diag["as_s"],
+                                                  "events_with_stale_prev_on_first_top_node": diag["headprev"]}}
     ck.cov["traces_validated_against_impl"] = okn
     ck.cov["evaluations"] += total
     ck.notes["trace"] = info
@@ -387,10 +418,17 @@ def run(tier):
     # 2. binding A: every transition replayed into the three stores and the path object
     nt = set()
     samples = []
+    exports = {}
+    gths = [threading.Thread(target=export, args=(g, exports)) for g, _ in cfg["gen"]]
+    for t in gths:
+        t.start()
     try:
-        for g, impl in cfg["gen"]:
-            binding_a(ck, exes, g, impl, nt, samples)
+        for (g, impl), t in zip(cfg["gen"], gths):
+            t.join()
+            binding_a(ck, exes, g, impl, nt, samples, *exports[g])
     finally:
+        for t in gths:
+            t.join()
         th.join()
     if len(mcres) != len(cfg["mc"]):
         raise vlib.MachineryError("model checking run did not finish")
